@@ -21,6 +21,9 @@ import (
 	"github.com/indexsupply/shovel/wpg"
 )
 
+// the referenced table of reference filters in this stand-in
+var pushRefTable map[string]bool
+
 func storedRows(ts string, ig dig.Integration, honour bool) ([]string, error) {
 	nodeMu.Lock()
 	nodeHonourAddr = honour
@@ -32,7 +35,7 @@ func storedRows(ts string, ig dig.Integration, honour bool) ([]string, error) {
 	if err != nil {
 		return nil, fmt.Errorf("Get: %w", err)
 	}
-	var conn fakeConn
+	conn := fakeConn{refTable: pushRefTable}
 	if _, err := ig.Insert(ctx, &sync.Mutex{}, &conn, blocks); err != nil {
 		return nil, fmt.Errorf("Insert: %w", err)
 	}
@@ -67,11 +70,28 @@ func TestVerifPushdownBounded(t *testing.T) {
 		{Op: "eq", Arg: []string{fmt.Sprint(5000 + 10*pStart + 1)}},
 		{Op: "ne", Arg: []string{fmt.Sprint(5000 + 10*pStart + 1)}},
 	}
+	// reference-only second filters on the indexed input "to": the referenced
+	// table holds the recipient of transaction 0 resp. 1 of the first block
+	refs := []struct {
+		table map[string]bool
+	}{
+		{map[string]bool{pat(0xd0, pStart, 0, 20): true}},
+		{map[string]bool{pat(0xd0, pStart, 1, 20): true, pat(0xd0, pStart+1, 1, 20): true}},
+	}
 	cases, fails := 0, 0
 	for _, op := range []string{"contains", "!contains", "eq", "ne"} {
 		for _, args := range argSets {
 			for _, agg := range []string{"and", "or", ""} {
-				for si, sf := range second {
+				for si := 0; si < len(second)+len(refs); si++ {
+					var sf *dig.Filter
+					var toFilter dig.Filter
+					pushRefTable = nil
+					if si < len(second) {
+						sf = second[si]
+					} else {
+						pushRefTable = refs[si-len(second)].table
+						toFilter = dig.Filter{Op: "contains", Ref: dig.Ref{Integration: "other", Table: "other_t", Column: "addr"}}
+					}
 					tbl := wpg.Table{Name: "t"}
 					var bd []dig.BlockData
 					for _, f := range []string{"log_addr", "block_num", "tx_idx", "log_idx"} {
@@ -87,8 +107,13 @@ func TestVerifPushdownBounded(t *testing.T) {
 					if sf != nil {
 						val.Filter = *sf
 					}
+					toInp := dig.Input{Indexed: true, Name: "to", Type: "address"}
+					if toFilter.Op != "" {
+						toInp.Column, toInp.Filter = "c_to", toFilter
+						tbl.Columns = append(tbl.Columns, wpg.Column{Name: "c_to", Type: "bytea"})
+					}
 					ev := dig.Event{Name: "Transfer", Type: "event", Inputs: []dig.Input{
-						{Indexed: true, Name: "from", Type: "address"}, {Indexed: true, Name: "to", Type: "address"}, val}}
+						{Indexed: true, Name: "from", Type: "address"}, toInp, val}}
 					desc := fmt.Sprintf("log_addr %s %v agg=%q second=%d", op, args, agg, si)
 					cases++
 					ig, err := dig.New("push", ev, bd, tbl, dig.Notification{}, agg)
